@@ -13,9 +13,9 @@ open DoitModel.Run
     preceded by the finish report (`add_success` or `skip_uptodate`) of every task `t` depends on by `task_dep`
     (incl. target→file_dep, result_dep after expansion), `calc_dep` or `setup` (incl. getargs after expansion) -/
 def OrderHolds (inp : RunInput) (reach : Sys → Prop) : Prop :=
-  ∀ s, reach s → ∀ i t w, s.events.reverse[i]? = some (Ev.start t w) →
-    ∀ d ∈ staticDeps inp t, ∃ j < i,
-      s.events.reverse[j]? = some (Ev.success d) ∨ s.events.reverse[j]? = some (Ev.skipUtd d)
+  ∀ s : Sys, reach s → ∀ i t w : Nat, s.events.reverse[i]? = some (Ev.start t w) →
+    ∀ d ∈ staticDeps inp t, ∃ j : Nat, j < i ∧
+      (s.events.reverse[j]? = some (Ev.success d) ∨ s.events.reverse[j]? = some (Ev.skipUtd d))
 
 /-- C01 for the serial runner -/
 theorem C01_order_serial (inp : RunInput) : OrderHolds inp (Reach inp) :=
